@@ -158,7 +158,9 @@ class Runner:
         if k == "add":
             if len(op) > 3 and op[3] == "uris":
                 # the same request by URI: looked up in the library, one track per requested URI
-                return ("tlts", tl.add(uris=[env.uri_of(i) for i in op[1]], at_position=op[2]))
+                return ("tlts", tl.add(uris=[env.uri_of(i) if not isinstance(i, list) else
+                                             "dummy:album:" + "-".join(str(x) for x in i) for i in op[1]],
+                                       at_position=op[2]))
             # a negative index stands for an argument that is not a Track
             return ("tlts", tl.add(tracks=[env.track(i) if i >= 0 else f"not-a-track{i}" for i in op[1]],
                                    at_position=op[2]))
@@ -359,10 +361,16 @@ def _oz(v):
     return -1 if v is None else int(v)
 
 
+def flat_tracks(items):
+    """add(uris=...): an item that is a list stands for one URI the library resolves to those
+    tracks (possibly none); the model's Add gets the tracks that are inserted."""
+    return [x for it in items for x in (it if isinstance(it, list) else [it])]
+
+
 def g_op(op):
     k = op[0]
     if k == "add":
-        return f"Add {g_list([g_z(x) for x in op[1]])} {g_optz(op[2])}"
+        return f"Add {g_list([g_z(x) for x in flat_tracks(op[1])])} {g_optz(op[2])}"
     if k == "clear":
         return "Clear"
     if k == "move":
